@@ -13,6 +13,7 @@ node-wide state (InfluxQL createFn cache, alert level expressions) get their own
 -/
 import Kap.Proofs.C06
 import Kap.Proofs.C06Demux
+import Kap.Proofs.C06Iql
 namespace Kap.Props.C06
 open Kap.C06
 
@@ -136,29 +137,19 @@ excluded; for named dimensions exactly of the configured ones. -/
 theorem group_by_dimensions (tags : Tags) (star : Bool) (dims excl : List String) (t : String) :
     t ∈ computeTagNames tags star (determineTagNames dims excl) excl ↔
       (if star then t ∈ tags.map (·.1) else t ∈ dims) ∧ t ∉ excl := by
-  have mem_ins : ∀ (x : String) (l : List String) (t : String), t ∈ insertSorted x l ↔ t = x ∨ t ∈ l := by
-    intro x l
-    induction l with
-    | nil => intro t; simp [insertSorted]
-    | cons y ys ih =>
-      intro t
-      unfold insertSorted
-      split
-      · simp
-      · simp only [List.mem_cons, ih]
-        constructor
-        · rintro (h | h | h) <;> simp [h]
-        · rintro (h | h | h) <;> simp [h]
-  have mem_sort : ∀ (l : List String) (t : String), t ∈ sortStrings l ↔ t ∈ l := by
-    intro l
-    induction l with
-    | nil => intro t; simp [sortStrings]
-    | cons y ys ih =>
-      intro t
-      have : sortStrings (y :: ys) = insertSorted y (sortStrings ys) := rfl
-      rw [this, mem_ins, ih]; simp
   unfold computeTagNames determineTagNames filterExcluded
-  cases star <;> simp [mem_sort, List.mem_filter]
+  cases star <;> simp [mem_sortStrings, List.mem_filter]
+
+/-- named dimensions (no `exclude`, which the pipeline only accepts with `*`) come out sorted, whatever order the
+script lists them in — so the id does not depend on the order of the `groupBy` arguments -/
+theorem named_dimensions_sorted (dims : List String) : sortedLe (determineTagNames dims []) = true := by
+  have hf : ∀ l : List String, filterExcluded l [] = l := by
+    intro l; unfold filterExcluded; simp
+  unfold determineTagNames
+  rw [hf]
+  induction dims with
+  | nil => rfl
+  | cons d ds ih => exact sortedLe_insertSorted d _ ih
 
 /-! ## Part 2 — isolation -/
 
@@ -192,21 +183,6 @@ theorem no_output_without_input {σ π ο : Type} (N : Node Unit σ π ο) (item
 
 /-! ### node-wide state 1: the InfluxQL `currentKind/createFn` cache -/
 
-/-- the cache invariant: a cached createFn is the one `determine…` gives for `currentKind` -/
-def CacheOk (m : Method) (c : Cache) : Prop := ∀ f, c.fn = some f → determine m c.cur = some f
-
-theorem getCreateFn_ok (m : Method) (c : Cache) (k : Kind) (h : CacheOk m c) :
-    (getCreateFn m c k).2 = determine m k ∧ CacheOk m (getCreateFn m c k).1 := by
-  unfold getCreateFn
-  split
-  · rename_i hc
-    simp only [Bool.and_eq_true, beq_iff_eq, Option.isSome_iff_exists] at hc
-    obtain ⟨e, f, hf⟩ := hc
-    exact ⟨by rw [hf, ← e, h f hf], h⟩
-  · cases hd : determine m k with
-    | none => exact ⟨rfl, fun f hf => by cases hf⟩
-    | some f => exact ⟨rfl, fun f' hf' => by simp only [Option.some.injEq] at hf'; rw [← hf']; exact hd⟩
-
 /-- **The createFn cache is keyed by kind**: after ANY history of requests (by any groups, in any order) the
 node-wide cache answers a request for kind `k` exactly like an uncached `determineReduceContextCreateFn`. -/
 theorem cache_keyed_by_kind (m : Method) (hist : List Kind) (k : Kind) :
@@ -234,38 +210,6 @@ theorem iqlOld_interferes :
     (runNode (iqlNodeOld .sum) {} items).filter (fun o => o.1 == "B") ≠
       runNode (iqlNodeOld .sum) {} (items.filter (fun it => it.group == "B")) := by
   decide
-
-theorem iqlAggregate_ok (m : Method) (γ : Cache) (st : IqlSt) (p : Pt) (h : CacheOk m γ) :
-    (iqlAggregate (getCreateFn m) m γ st p).2 = (iqlAggregate (fun c k => (c, determine m k)) m {} st p).2 ∧
-    CacheOk m (iqlAggregate (getCreateFn m) m γ st p).1 := by
-  unfold iqlAggregate
-  cases st.rc with
-  | some c => exact ⟨rfl, h⟩
-  | none =>
-    cases p.v.kind? with
-    | none => exact ⟨rfl, h⟩
-    | some k =>
-      obtain ⟨e, i⟩ := getCreateFn_ok m γ k h
-      simp only [e]
-      cases determine m k with
-      | none => exact ⟨rfl, i⟩
-      | some f => exact ⟨rfl, i⟩
-
-/-- the InfluxQL node (today's code) is transparent in its cache -/
-def iqlTransparent (m : Method) : Transparent (iqlNode m) (CacheOk m) :=
-  { newP := fun g first => ((iqlNode m).newGroup {} g first).2,
-    recvP := fun st msg => ((iqlNodeWith (fun c k => (c, determine m k)) m).recv {} st msg).2,
-    new_ok := fun γ g first h => ⟨rfl, h⟩,
-    recv_ok := fun γ st msg h => by
-      cases msg with
-      | point g p =>
-        simp only [iqlNode, iqlNodeWith, iqlPoint]
-        split
-        · obtain ⟨e, i⟩ := iqlAggregate_ok m γ st p h
-          exact ⟨by simp [e], i⟩
-        · obtain ⟨e, i⟩ := iqlAggregate_ok m γ { st with time := p.time, rc := none } p h
-          exact ⟨by simp [e], i⟩
-      | _ => exact ⟨rfl, h⟩ }
 
 /-- **InfluxQL node isolated** although `currentKind/createFn` is shared by all groups: for every stream and
 every group (stream side, `sum`/`count`, as transcribed). -/
